@@ -29,6 +29,8 @@ TEnd == IsEv("end") /\ (invoked # {} => started # 0 /\ ended) /\ UNCHANGED <<inv
 \* a whole unsynchronised round of n simultaneous first callers, summarised: exactly one function started, and every caller
 \* returned that function's values
 TBurst == IsEv("burst") /\ Ev.starts = 1 /\ Ev.agree = Ev.n /\ UNCHANGED <<invoked, started, ended, arity>>
+\* (a "stall" line - callers that did not come back from Do although the action had been released - and a "crash" line have no
+\*  action: every Do returns, so such a line is never explained)
 TNext == TBurst \/ TReset \/ TInvoke \/ TFStart \/ TFEnd \/ TRet \/ TInfo \/ TEnd
 TSpec == TInit /\ [][TNext]_vars
 Track == TrackL(l)
